@@ -415,6 +415,17 @@ func sortedCopy(l []string) []string {
 
 // ---- generation ----
 
+// literalWords: the shared alphabet plus non-ASCII words (their UTF-8 bytes have the high bit set) and,
+// for records that stay static, words with ':' or '*' in mid-segment (literal there by denco's own rule).
+var literalWords = append(append([]string{}, gen.Words...), "manh\u00e3", "men\u00fa", "f\u00eate", "\u043a\u043d", "caf\u00e9", "\u00a3", "\u00aa", "\u00ba")
+
+func word(r *rand.Rand) string {
+	if r.Intn(6) == 0 {
+		return literalWords[r.Intn(len(literalWords))]
+	}
+	return gen.Pick(r, gen.Words)
+}
+
 func genPattern(r *rand.Rand, id int) string {
 	nseg := 1 + r.Intn(4)
 	var sb strings.Builder
@@ -423,16 +434,16 @@ func genPattern(r *rand.Rand, id int) string {
 		sb.WriteByte('/')
 		switch k := r.Intn(20); {
 		case k < 9:
-			sb.WriteString(gen.Pick(r, gen.Words))
+			sb.WriteString(word(r))
 		case k < 14:
 			fmt.Fprintf(&sb, ":p%d_%d", id, np)
 			np++
 		case k < 16:
-			sb.WriteString(gen.Pick(r, gen.Words))
+			sb.WriteString(word(r))
 			fmt.Fprintf(&sb, ":p%d_%d", id, np)
 			np++
 		case k < 17:
-			sb.WriteString(gen.Pick(r, gen.Words))
+			sb.WriteString(word(r))
 			fmt.Fprintf(&sb, "=:p%d_%d", id, np)
 			np++
 		case k < 18 && s == nseg-1:
@@ -441,14 +452,18 @@ func genPattern(r *rand.Rand, id int) string {
 		case k < 19:
 			// empty segment (duplicate slash) or dotted word
 			if r.Intn(2) == 0 {
-				sb.WriteString(gen.Pick(r, gen.Words) + "." + gen.Pick(r, gen.Words))
+				sb.WriteString(word(r) + "." + word(r))
 			}
 		default:
-			sb.WriteString(gen.Pick(r, gen.Words))
+			sb.WriteString(word(r))
 		}
 	}
 	if r.Intn(8) == 0 {
 		sb.WriteByte('/')
+	}
+	if np == 0 && r.Intn(6) == 0 {
+		// parameter-free, with ':' or '*' in mid-segment: still a static record (only "/:" "/*" "=:" start parameters)
+		return sb.String() + []string{"/items:batchGet", "/a*b", "/v1:x/ab", "/x*"}[r.Intn(4)]
 	}
 	return sb.String()
 }
